@@ -50,6 +50,8 @@ ExportBehaviours ==
 (* Direct statements of some properties on M's own state (independent of   *)
 (* the monitors)                                                           *)
 (***************************************************************************)
+\* C12 on M: the two delivery styles are related at every delivery point
+DeliveriesRelated == (s.pc = "deliver") => Related(CallView(s), ExecView(s))
 AttemptsBounded == s.ninv <= cfg.maxAtt
 InvokeWithinDeadline == (ev.e = "invoke") => ev.t <= cfg.D
 SleepWithinRemaining == (ev.e = "sleep") => (ev.s >= 0 /\ ev.s <= cfg.D - ev.t)
@@ -164,6 +166,28 @@ ConfigsC05x ==
     { [Base EXCEPT !.maxAtt = 3, !.rc = TRUE, !.D = 10, !.hasDefault = tb[1], !.strat = tb[2],
                    !.legacy = tb[3], !.handler = ha, !.bsleep = ha] :
         tb \in TablesC05, ha \in BOOLEAN }
+
+\* ---- C12 / C15: every dimension at small values -------------------------------
+OutsC12 == {OkOut, Out("exc", T, None), Out("res", R, 2), Out("exc", U, None), Out("exc", P, None),
+            Out("abort", "-", None)}
+ConfigsC12 ==
+    { [Base EXCEPT !.maxAtt = ma, !.rc = TRUE, !.maxUnk = 1, !.D = d,
+                   !.lim = [NoLim EXCEPT ![T] = 1], !.hasDefault = st[1], !.strat = st[2],
+                   !.legacy = st[3], !.budget = bu, !.handler = ha, !.bsleep = ha, !.abort = ab] :
+        ma \in {2, 3}, d \in {3, Inf}, st \in {<<TRUE, {}, {}>>, <<FALSE, {T, U, P}, {U}>>},
+        bu \in {None, 1}, ha \in BOOLEAN, ab \in BOOLEAN }
+ConfigsC12x ==
+    { [Base EXCEPT !.maxAtt = 2, !.rc = TRUE, !.maxUnk = 1, !.D = d,
+                   !.lim = [NoLim EXCEPT ![T] = 1], !.hasDefault = st[1], !.strat = st[2],
+                   !.legacy = st[3], !.budget = bu, !.handler = ha, !.bsleep = ha, !.abort = ab] :
+        d \in {3, Inf}, st \in {<<TRUE, {}, {}>>, <<FALSE, {T, U, P}, {U}>>},
+        bu \in {1}, ha \in BOOLEAN, ab \in BOOLEAN }
+OutsC12x == {OkOut, Out("exc", T, None), Out("res", R, 2), Out("exc", U, None)}
+ConfigsC15x ==
+    { [Base EXCEPT !.maxAtt = 3, !.rc = TRUE, !.maxUnk = 1, !.D = d,
+                   !.lim = [NoLim EXCEPT ![T] = 1], !.budget = 1, !.handler = ha, !.bsleep = TRUE,
+                   !.abort = ab] :
+        d \in {3, Inf}, ha \in BOOLEAN, ab \in BOOLEAN }
 
 \* ---- C13: abort and cancellation ---------------------------------------------
 OutsC13 == {OkOut, Out("exc", T, None), Out("res", T, None), Out("abort", "-", None),
